@@ -784,7 +784,10 @@ impl RestorePlan {
         let mut open_file = dest.get_matching_file(&name, file.meta.size);
 
         // Empty files which exists with correct size should always return Ok(Existing)!
+        // Note: the size in the metadata may be 0 although the file has content (e.g. snapshots of stdin or of a
+        // command's output), so a file is only empty if it has no content blobs, too.
         if file.meta.size == 0
+            && file.content.iter().flatten().next().is_none()
             && let Some(meta) = open_file
                 .as_ref()
                 .map(std::fs::File::metadata)
